@@ -22,6 +22,8 @@ func (x *Exec) footprintFor(env *SpecEnv, assigns []AssignSpec, name string) *fo
 	hit := false
 	for _, a := range assigns {
 		switch a.Kind {
+		case "nothing":
+			hit = true // explicit empty footprint: only freshly allocated objects change
 		case "all":
 			fp.whole = true
 			hit = true
